@@ -107,7 +107,12 @@ class StmtMixin(ContractMixin):
         if m is None:
             raise Unsupported(f"statement {type(stmt).__name__} at {self.where(stmt, st)}")
         r = m(stmt, st)
-        return [st] if r is None else r
+        out = [st] if r is None else r
+        for x in out:
+            if x.ghost.get("__cut_pending__") and x.status == "run" and not x.rec:
+                x.ghost["__cut_pending__"] = False
+                x.status = "cut"
+        return out
 
     # ------------------------------------------------------------------ simple statements
 
@@ -261,6 +266,8 @@ class StmtMixin(ContractMixin):
             return
         if isinstance(t, ast.Subscript):
             obj = self.force(st, self.ev(t.value, st))
+            if type(obj).__name__ == "VDebug":
+                return  # write into the debug store: dropped by the extraction
             if isinstance(t.slice, ast.Slice):
                 raise Unsupported("slice assignment")
             key = self.force(st, self.ev(t.slice, st))
@@ -395,6 +402,7 @@ class StmtMixin(ContractMixin):
         ra = self.exec_block(s.body, [a])
         rb = self.exec_block(s.orelse, [b])
         a, b = ra[0], rb[0]
+        st.nfresh = max(st.nfresh, a.nfresh, b.nfresh)
         for x in (a, b):
             for r, h in x.heap.items():
                 if r in st.heap and st.heap[r] is not h:
@@ -656,6 +664,8 @@ class StmtMixin(ContractMixin):
         # roots allocated inside the body are iteration-local
         before_roots = set(body_st.heap.keys())
         ends = self.exec_block(s.body, [body_st])
+        # symbols created inside the body must not be re-used afterwards (capture in summaries)
+        st.nfresh = max([st.nfresh] + [e.nfresh for e in ends])
         effects, seen = [], set()
         raises = []
         for e in ends:
@@ -787,7 +797,23 @@ class StmtMixin(ContractMixin):
             for e in reversed(efs[:-1]):
                 val = self.v_ite(e.guard, self.force(st, e.value), val)
             merged.append(Effect("append", key[0], key[1], val, t_or(*[e.guard for e in efs]), (), where=efs[0].where))
-        rest_effects = merged
+        # emissions of one source statement reached along different paths of the body: one family
+        merged2, emits = [], {}
+        for ef in merged:
+            if ef.kind == "emit":
+                key = (ef.name, ef.where, tuple(b.get_id() for b in ef.binders))
+                emits.setdefault(key, []).append(ef)
+            else:
+                merged2.append(ef)
+        for key, efs in emits.items():
+            if len(efs) == 1:
+                merged2.append(efs[0])
+                continue
+            term = efs[-1].value
+            for e in reversed(efs[:-1]):
+                term = z3.If(e.guard, e.value, term)
+            merged2.append(Effect("emit", None, (), term, t_or(*[e.guard for e in efs]), efs[0].binders, name=efs[0].name, where=efs[0].where))
+        rest_effects = merged2
         for grp in groups:
             self.apply_const_cell_sets(st, grp, list(loop_binders), k, s)
         for ef in rest_effects:
@@ -970,52 +996,64 @@ class StmtMixin(ContractMixin):
                 cur = HDict(kty, b, z3.BoolVal(False), v0, cur.default, None)
         if not isinstance(cur, HDict):
             raise Unsupported(f"summarised write into {type(cur).__name__}")
-        inv = self.invert_key(st, binders, x, cur.kty)
+        xx, pairs, resid, und = self.invert_key(st, binders, x, cur.kty, partial=True)
+        y = cur.binder
+
+        def inst(t):
+            t = z3.substitute(t, *pairs) if pairs else t
+            return z3.substitute(t, (xx, y))
         if ef.kind == "add":
             if rest:
                 raise Unsupported("nested accumulation")
-            kt = self.lower(x, cur.kty)
             d = self.force(st, ef.value)
-            # val'(y) = val(y) + sum_{binders: guard and key = y} delta
-            y = cur.binder
-            if inv is not None:
-                xx, pairs, resid = inv
-                # one-point rule for the binders determined by the key
-                g1 = z3.substitute(t_and(ef.guard, resid), *pairs)
-                g1 = z3.substitute(g1, (xx, y))
-                dv = subst(d, pairs)
-                dv = subst(dv, [(xx, y)])
-                contrib = self.v_scale(st, g1, dv)
+            g1 = inst(t_and(ef.guard, resid))
+            dv = subst(subst(d, pairs), [(xx, y)])
+            if und:
+                contrib = self.sum_value(st, und, g1, dv)
             else:
-                contrib = self.sum_value(st, binders, t_and(ef.guard, kt == y), d)
+                contrib = self.v_scale(st, g1, dv)
             oldv = cur.val
             if cur.default == "int":
                 oldv = self.v_ite(cur.dom, cur.val, VInt(0))
-                newdom = t_or(cur.dom, self.exists(binders, t_and(ef.guard, kt == y)))
+                newdom = t_or(cur.dom, self.exists(und, g1))
             else:
                 newdom = cur.dom
             return HDict(cur.kty, cur.binder, newdom, self.binop(st, ast.Add(), oldv, contrib), cur.default, cur.vty)
         # set
-        if inv is None:
-            raise Unsupported("summarised dictionary write whose key does not determine the iteration")
-        xx, pairs, resid = inv
-        y = cur.binder
-        hit = z3.substitute(z3.substitute(t_and(ef.guard, resid), *pairs), (xx, y))
-        hit = z3.simplify(hit)
+        body = inst(t_and(ef.guard, resid))
         if rest:
-            child = cur.val
-            if cur.default is not None:
-                child = self.v_ite(cur.dom, cur.val, self.default_h(cur))
-            sub_ef = Effect(ef.kind, ef.root, rest, subst(ef.value, pairs + [(xx, y)]) if False else ef.value, ef.guard, ef.binders)
             raise Unsupported("nested summarised write below a keyed step")
-        val = ef.value
-        val = self.force(st, val)
+        val = self.force(st, ef.value)
         if isinstance(val, VRef):
-            hv = self.resolve(st, val)
-            val = hv
-        nv = subst(val, pairs)
-        nv = subst(nv, [(xx, y)])
-        return HDict(cur.kty, cur.binder, z3.simplify(t_or(cur.dom, hit)), self.v_ite(hit, nv, cur.val), cur.default, cur.vty)
+            val = self.resolve(st, val)
+        nv = subst(subst(val, pairs), [(xx, y)])
+        if und:
+            # several iterations may write the same cell: they must agree on the value (checked),
+            # the summary picks a witness
+            ren = [(u, z3.Const(f"{u}!w{next(self.ctx.counter)}", u.sort())) for u in und]
+            ids = {u.get_id() for u in und}
+            hits = []
+
+            def probe(t):
+                if mentions(t, ids):
+                    hits.append(t)
+                return t
+            nv.map_terms(probe)
+            if not hits:
+                same = z3.BoolVal(True)  # the written value does not depend on the undetermined variables
+            else:
+                try:
+                    same = self.vh_eq(st, nv, subst(nv, ren))
+                except Unsupported:
+                    same = z3.BoolVal(False)
+            goal = z3.Implies(t_and(body, z3.substitute(body, *ren)), same)
+            self.ctx.obls.append(self.mk_obl(st, f"foreach-side#{k}/same-cell-same-value", self.forall([y] + list(und) + [r for _, r in ren], goal), "foreach", self.where(s, st)))
+            cp, hit = self.choose(st, y, und, body)
+            nv = subst(nv, cp)
+        else:
+            hit = z3.simplify(body)
+        newval = nv if cur.val is None else self.v_ite(hit, nv, cur.val)
+        return HDict(cur.kty, cur.binder, z3.simplify(t_or(cur.dom, hit)), newval, cur.default, cur.vty)
 
     def v_scale(self, st, g, v):
         if isinstance(v, VLin):
